@@ -287,11 +287,12 @@ LayerPutSet(Li, cap, k, v) ==
 WithKey(Lx, i, k, v) == [Lx EXCEPT ![i] = [@ EXCEPT ![k] = v]]
 NoKey(Lx, k) == [i \in 1..NL |-> [x \in Keys |-> IF x = k THEN None ELSE Lx[i][x]]]
 
-\* put: layer 1 only (as is) / also invalidating other values in slower layers (F12b repaired)
+\* put: layer 1 only (before 36f5873) / then removing the key from every slower layer (F12b repaired)
 PutSet(Lx, k, v) ==
   {[i \in 1..NL |-> IF i = 1 THEN m
-                    ELSE IF "F12b" \in Fixed /\ Lx[i][k] # v THEN [Lx[i] EXCEPT ![k] = None] ELSE Lx[i]]
+                    ELSE IF "F12b" \in Fixed THEN [Lx[i] EXCEPT ![k] = None] ELSE Lx[i]]
      : m \in LayerPutSet(Lx[1], Caps[1], k, v)}
+PutDelP(ks) == IF "F12b" \in Fixed THEN delP \ ks ELSE delP     \* the remove also drops a disk index entry whose file is gone
 RECURSIVE PutsSet(_, _, _)
 PutsSet(S, items, n) ==
   IF n > Len(items) THEN S
@@ -303,13 +304,13 @@ Touched(s, i, k) == s \ {<<i, k>>}
 Atomic(e) ==
   CASE e.op \in {"put", "put_ttl"} ->
          {Out(M, "ok", trk \cup {e.k},
-              IF e.op = "put_ttl" /\ e.ttl = "short" THEN shortE \cup {<<1, e.k>>} ELSE Touched(shortE, 1, e.k), delP)
+              IF e.op = "put_ttl" /\ e.ttl = "short" THEN shortE \cup {<<1, e.k>>} ELSE Touched(shortE, 1, e.k), PutDelP({e.k}))
             : M \in PutSet(L, e.k, e.v)}
     [] e.op = "put_val" ->
          IF Hooks /\ e.v # e.ck THEN {Out(L, "err", trk, shortE, delP)}
-         ELSE {Out(M, "ok", trk \cup {e.k}, Touched(shortE, 1, e.k), delP) : M \in PutSet(L, e.k, e.v)}
+         ELSE {Out(M, "ok", trk \cup {e.k}, Touched(shortE, 1, e.k), PutDelP({e.k})) : M \in PutSet(L, e.k, e.v)}
     [] e.op = "batch_put" ->
-         {Out(M, "ok", trk \cup KeysIn(e.items), {p \in shortE : ~(p[1] = 1 /\ p[2] \in KeysIn(e.items))}, delP)
+         {Out(M, "ok", trk \cup KeysIn(e.items), {p \in shortE : ~(p[1] = 1 /\ p[2] \in KeysIn(e.items))}, PutDelP(KeysIn(e.items)))
             : M \in PutsSet({L}, e.items, 1)}
     [] e.op = "put_layer" ->
          IF e.layer >= NL THEN {Out(L, "err", trk, shortE, delP)}
